@@ -13,6 +13,9 @@
 // handler and in the store.
 // Part 5 (repl.go): a seeded history on a real single-node engine, polled through the real log
 // replication server; every replicated command judged against the proposed one.
+// Part 6 (follow.go): leader + follower engines with the real replication worker; a history of
+// alternating large and small values replicated in one go; follower table == leader table.
+// rawchunk.go: raw payloads of k MiB (± 1) through snapshot.Writer/Reader alone.
 package main
 
 import (
@@ -155,6 +158,14 @@ func main() {
 			var c streamCase
 			_ = json.Unmarshal(doc.Case, &c)
 			runStreamCase(se, c)
+		case "rawchunk":
+			var c rawCase
+			_ = json.Unmarshal(doc.Case, &c)
+			runRawCase(se, c)
+		case "follower":
+			var c followCase
+			_ = json.Unmarshal(doc.Case, &c)
+			runFollowCase(r, c)
 		case "replicate":
 			// which pooled object serves which entry is schedule dependent: up to 3 attempts
 			var c replCase
@@ -239,6 +250,11 @@ func main() {
 	r.FloorCount("streams", int64(r.Pick(140, 1700)))
 	r.FloorCount("streams_with_boundary_inside_length_prefix", int64(r.Pick(40, 450)))
 	r.FloorDistinct("stream_variants", int64(r.Pick(20, 30)))
+	r.FloorCount("raw_chunk_streams", int64(r.Pick(10, 20)))
+	r.FloorCount("raw_chunk_streams_exact_multiple_of_chunk_size", int64(r.Pick(3, 8)))
+	r.FloorCount("streams_with_file_length_exact_multiple_of_chunk_size", int64(r.Pick(4, 16)))
+	r.FloorCount("follower_cases_converged_equal", int64(r.Pick(1, 6)))
+	r.FloorCount("follower_leader_writes_100KiB_or_more", int64(r.Pick(10, 100)))
 	r.FloorCount("replicated_commands_judged", int64(r.Pick(1200, 15000)))
 	r.FloorCount("replicated_single_key_deletes_judged", int64(r.Pick(150, 2000)))
 	r.FloorCount("replicate_polls", int64(r.Pick(80, 800)))
@@ -266,6 +282,7 @@ func scratchDir() string {
 type job struct {
 	codec  *codecCase
 	stream *streamCase
+	raw    *rawCase
 }
 
 func runAll(r *ev.Run, ce *codecEnv, se *streamEnv) {
@@ -298,6 +315,14 @@ func runAll(r *ev.Run, ce *codecEnv, se *streamEnv) {
 	for ; si < len(sc); si++ {
 		jobs = append(jobs, job{stream: &sc[si]})
 	}
+	if parts == "" || strings.Contains(parts, "stream") {
+		raws := rawPlan(r.Seed, r.Thorough())
+		for i := range raws {
+			// spread over the run, so the pooled chunks they use have a history
+			at := (i + 1) * len(jobs) / (len(raws) + 1)
+			jobs = append(jobs[:at], append([]job{{raw: &raws[i]}}, jobs[at:]...)...)
+		}
+	}
 	ch := make(chan job, 64)
 	var wg sync.WaitGroup
 	nw := runtime.GOMAXPROCS(0)
@@ -310,7 +335,9 @@ func runAll(r *ev.Run, ce *codecEnv, se *streamEnv) {
 			defer wg.Done()
 			for j := range ch {
 				t0 := time.Now()
-				if j.codec != nil {
+				if j.raw != nil {
+					runRawCase(se, *j.raw)
+				} else if j.codec != nil {
 					ce.runCodecCase(*j.codec)
 					r.Count("worker_ms_codec_cases", time.Since(t0).Milliseconds())
 					if d := time.Since(t0); d > 30*time.Second {
@@ -351,6 +378,17 @@ func runAll(r *ev.Run, ce *codecEnv, se *streamEnv) {
 				}
 			}(lane)
 		}
+	}
+	if parts == "" || strings.Contains(parts, "follower") {
+		lanes.Add(1)
+		go func() {
+			defer lanes.Done()
+			t0 := time.Now()
+			for _, fc := range followPlan(r) {
+				runFollowCase(r, fc)
+			}
+			r.Extra("wall_s_follower_lane", time.Since(t0).Seconds())
+		}()
 	}
 	if parts == "" || strings.Contains(parts, "replicate") {
 		lanes.Add(1)
